@@ -65,7 +65,7 @@ def handle (op : String) (args : List String) : Option String :=
       | .ok v => fl v
       | .err _ => "ERR"
       | .panic _ => "PANIC")
-  | "wavevector", [x, y, z, n, w] => do
+  | "dk_wavevector", [x, y, z, n, w] => do
     let d ← vec? x y z; let n ← parseFl n; let w ← parseFl w
     pure (showVec (wavevector d n w))
   | _, _ => none
